@@ -3,7 +3,11 @@ from sa.h import *
 
 EXPLANATION = (
     "Decided on OverwriteableFileConsumer (all paths): (a) monotone merge - while consecutive overwrite regions are "
-    "merged, the running end of the merged region only grows (each re-assignment is max(end, .) or guarded by . > end); "
+    "merged, the running end of the merged region only grows (each re-assignment is max(end, .) or guarded by . > end) - also when "
+    "write() delegates the merge to a helper method self.<m>() whose result (or one element of it) becomes the region's end: there the "
+    "returned local starts as the end of the first heap record (or as write()'s end, passed in), every later re-binding of it is "
+    "max(end, .) or guarded by . > end (a tuple unpack of a popped record is not), a further record is popped only on paths that "
+    "established record-start <= merged end, and write() has not removed the record the helper starts from; "
     "(b) downloaded bytes are written to the temp file only at offset self.downloaded, only after the overwrite heap "
     "was consulted on that call (heap empty or its first region starts at/after the downloaded chunk), the partial "
     "write before a region is exactly the prefix data[:start-downloaded], skipping a region slices data by "
@@ -287,6 +291,259 @@ def _callback_unreachable_facts(m, reg, mutators):
     return result or set()
 
 
+# ---------------------------------------------------------------- the merge of consecutive overwrite records
+HEAP = "self.overwrites"
+_HEAP_MUTATING_METHODS = ("pop", "clear", "remove", "append", "extend", "insert", "sort")
+
+
+def _is_heap_top(v, heap=HEAP):
+    return isinstance(v, ast.Subscript) and attr_path(v.value) == heap and isinstance(v.slice, ast.Constant) and v.slice.value == 0
+
+
+def _is_heap_pop(v, heap=HEAP):
+    return isinstance(v, ast.Call) and call_tail(v) == "heappop" and bool(v.args) and attr_path(v.args[0]) == heap
+
+
+def _heap_pops(n, heap=HEAP):
+    return [c for c in node_calls(n) if _is_heap_pop(c, heap)]
+
+
+def _mutates_heap(n, heap=HEAP):
+    if n.kind in ("entry", "exit", "raise"):
+        return False
+    st = node_stores(n)
+    if heap in st or (heap + "[]") in st:
+        return True
+    for c in node_calls(n):
+        if call_tail(c) in ("heappop", "heappush", "heapreplace", "heappushpop", "heapify") and c.args and attr_path(c.args[0]) == heap:
+            return True
+        if isinstance(c.func, ast.Attribute) and attr_path(c.func.value) == heap and c.func.attr in _HEAP_MUTATING_METHODS:
+            return True
+    return False
+
+
+def _binding(n, name):
+    """How CFG node n binds the local `name`: ('expr', value) for a plain / element-wise assignment, ('elt', value, i) when
+    `name` is element i of a tuple target that unpacks `value`, ('other',) for any other binding (for target, augmented
+    assignment, with .. as, ..); None when n does not bind it."""
+    if name not in node_stores(n):
+        return None
+    a = n.ast
+    if n.kind == "stmt" and isinstance(a, ast.Assign):
+        for t in a.targets:
+            if attr_path(t) == name:
+                return ("expr", a.value)
+            if isinstance(t, (ast.Tuple, ast.List)):
+                idxs = [i for i, tt in enumerate(t.elts) if attr_path(tt) == name]
+                if not idxs or any(isinstance(tt, ast.Starred) for tt in t.elts):
+                    continue
+                if isinstance(a.value, (ast.Tuple, ast.List)) and len(a.value.elts) == len(t.elts):
+                    return ("expr", a.value.elts[idxs[-1]])
+                return ("elt", a.value, idxs[-1])
+    if n.kind == "stmt" and isinstance(a, ast.AnnAssign) and attr_path(a.target) == name and a.value is not None:
+        return ("expr", a.value)
+    return ("other",)
+
+
+def _self_method_call(v, cls):
+    """`self.<m>(..)` where <m> is a method of the class (or a base class) -> its FuncInfo, else None."""
+    if isinstance(v, ast.Call) and isinstance(v.func, ast.Attribute) and attr_path(v.func.value) == "self" and cls is not None:
+        return cls.lookup(v.func.attr)
+    return None
+
+
+def _delegated_merge(fnorm, n, name, cls):
+    """Is the binding of `name` at node n the result (or one element of the result) of a helper method of the class?
+    -> (call, FuncInfo, element index or None), else None."""
+    b = _binding(n, name)
+    if not b or b[0] == "other":
+        return None
+    v = b[1]
+    if isinstance(v, ast.Name):
+        v = fnorm.resolve(n, v)
+    h = _self_method_call(v, cls)
+    if h is None:
+        return None
+    return (v, h, b[2] if b[0] == "elt" else None)
+
+
+def _elt_expr(v, i):
+    return ast.Subscript(value=v, slice=ast.Constant(value=i), ctx=ast.Load())
+
+
+def _bound_arg(call, H, pname):
+    """The argument expression that `call` binds to parameter `pname` of method H (None: default / not decidable)."""
+    ps = first_positional_params(H)
+    for k in call.keywords:
+        if k.arg == pname:
+            return k.value
+    if any(isinstance(a, ast.Starred) for a in call.args) or any(k.arg is None for k in call.keywords):
+        return None
+    if pname in ps and ps.index(pname) < len(call.args):
+        return call.args[ps.index(pname)]
+    return None
+
+
+def _popped_between(g, a, b):
+    """Over the non-exceptional paths of CFG g from node a to node b: does the code in between change the overwrite heap?
+    -> True (on every path), False (on none), None (on some)."""
+    def tr(x, lab, y, st):
+        if lab == "exc" or (x is b):
+            return None
+        return st or (x is not a and _mutates_heap(x))
+    vis, _par = explore(g, False, tr, start=a)
+    got = {st for (nid, st) in vis if nid == b.id}
+    if got == {True}:
+        return True
+    if got == {False}:
+        return False
+    return None
+
+
+def _check_merge_helper(r, caller, call_node, call, H, comp, caller_end, caller_top_node, cls):
+    """Decide the merge conditions inside helper method H, whose result (element `comp` of it, or all of it) becomes the
+    end of the merged overwrite region in `caller`:
+      * the local that is returned as the merged end starts as the end of the first heap record (or as the caller's end),
+      * every later re-binding of it is max(end, x) or guarded by x > end (the merged end never shrinks),
+      * a record is popped as merged only when it starts at/before the merged end.
+    Returns the helper functions that were analysed (for the heap discipline rule)."""
+    hg = H.cfg()
+    tuple_names = {x for n in hg.stmt_nodes() for x in node_stores(n)
+                   if isinstance(n.ast, ast.Assign) and isinstance(n.ast.targets[0], (ast.Tuple, ast.List)) and "." not in x and "[" not in x}
+    pre = FlowNorm(H, keep=tuple_names)
+    rets = hg.find(is_return)
+    if not rets:
+        r.violation(H, H.loc(), "%s() hands no merged region back to %s()" % (H.name, caller.name))
+        return [H]
+    ends = set()
+    for rn in rets:
+        v = rn.ast.value
+        if v is not None and comp is not None:
+            if isinstance(v, ast.Name):
+                v = pre.resolve(rn, v)
+            v = v.elts[comp] if isinstance(v, (ast.Tuple, ast.List)) and len(v.elts) > comp else None
+        if not isinstance(v, ast.Name):
+            raise AnalysisError("%s(): the merged end handed back to %s() (%s) is not a local; the merge cannot be decided"
+                                % (H.name, caller.name, src(H, rn.ast)))
+        ends.add(v.id)
+    if len(ends) != 1:
+        raise AnalysisError("%s(): different locals (%s) are returned as the merged end" % (H.name, sorted(ends)))
+    EH = ends.pop()
+    hn = FlowNorm(H, keep=tuple_names | {EH})
+    rd = C.reaching_defs(hg)
+    analysed = [H]
+    from_param = EH in H.params
+    caller_popped = _popped_between(caller.cfg(), caller_top_node, call_node)
+    if caller_popped is None:
+        raise AnalysisError("%s(): the first overwrite record is removed on some paths to the call of %s() only; the merge cannot be decided"
+                            % (caller.name, H.name))
+    if from_param:
+        a = _bound_arg(call, H, EH)
+        r.require(a is not None and attr_path(a) == caller_end, caller, caller.loc(call_node.ast),
+                  "%s() starts the merged end from its argument `%s`, which %s() binds to %s, not to the end `%s` of the region it examined"
+                  % (H.name, EH, caller.name, src(caller, a) if a is not None else "nothing", caller_end))
+
+    def shrink_msg(n, what):
+        return ("merged overwrite region can shrink: %s() re-binds the merged end `%s` to %s, which is neither max(%s, .) nor guarded by "
+                ". > %s; a smaller write nested in a larger pending one then lets the download clobber the tail of the larger one"
+                % (H.name, EH, what, EH, EH))
+
+    n_defs = 0
+    for n in hg.stmt_nodes() + [x for x in hg.nodes if x.kind in ("iter", "with", "except")]:
+        b = _binding(n, EH)
+        if b is None:
+            continue
+        n_defs += 1
+        r.site(H, n.ast, "merged end := %s" % src(H, n.ast))
+        prior = rd.get(n.id, {}).get(EH, frozenset())
+        if b[0] == "other":
+            r.violation(H, H.loc(n.ast), shrink_msg(n, "a loop / with / augmented target"))
+            continue
+        v = b[1]
+        rv = pre.resolve(n, v) if isinstance(v, ast.Name) else v
+        if not prior:
+            # first definition: the end of the first heap record
+            if b[0] == "elt":
+                if not (_is_heap_top(rv) or _is_heap_pop(rv)):
+                    raise AnalysisError("%s(): the merged end starts from %s, not from the first record of %s; cannot be decided"
+                                        % (H.name, src(H, n.ast), HEAP))
+                r.require(b[2] == 1, H, H.loc(n.ast), "%s(): the merged end `%s` starts as element %d of the first overwrite record, "
+                          "not as its end" % (H.name, EH, b[2]))
+            else:
+                ok0 = isinstance(rv, ast.Subscript) and isinstance(rv.slice, ast.Constant) and rv.slice.value == 1 and \
+                    (_is_heap_top(rv.value) or _is_heap_pop(rv.value) or
+                     (isinstance(rv.value, ast.Name) and (_is_heap_top(pre.resolve(n, rv.value)) or _is_heap_pop(pre.resolve(n, rv.value)))))
+                if not ok0:
+                    raise AnalysisError("%s(): the merged end starts from %s, not from the first record of %s; cannot be decided"
+                                        % (H.name, src(H, n.ast), HEAP))
+            # the record the helper starts from is the one the caller examined: no heap change in between
+            r.require(not caller_popped, caller, caller.loc(call_node.ast), "%s() changes %s between reading its first record and calling "
+                      "%s(), which starts the merge from the first record again: a record is merged without having been compared "
+                      "with the region" % (caller.name, HEAP, H.name))
+            continue
+        # a re-binding: monotone
+        if b[0] == "expr" and isinstance(rv, ast.Call) and call_tail(rv) == "max" and not rv.keywords \
+                and any(attr_path(a_) == EH for a_ in rv.args):
+            continue
+        if _self_method_call(rv, cls) is not None:
+            raise AnalysisError("%s(): the merge is delegated once more (%s); cannot be decided" % (H.name, src(H, n.ast)))
+        if b[0] == "expr":
+            vn = hn.norm(n, v)
+            kills = {EH} | names_in(v)
+            heapish = HEAP in vn
+        else:
+            if _is_heap_pop(rv) or _is_heap_top(rv):
+                vn = norm_src("%s[0][%d]" % (HEAP, b[2]))
+                kills, heapish = {EH}, True
+            else:
+                vn = hn.norm(n, _elt_expr(v, b[2]))
+                kills, heapish = {EH} | names_in(v), False
+
+        def grows(t, lab, _vn=vn):
+            f = hn.edge_fact(t, lab)
+            return bool(f) and f[0] == "<" and f[1] == EH and f[2] == _vn
+        bad = find_path_avoiding(hg, lambda x, _n=n: x is _n, gate_edge=grows,
+                                 kill=lambda x, _k=kills, _h=heapish: bool(_k & node_stores(x)) or (_h and _mutates_heap(x)))
+        r.count(len(hg.nodes))
+        if bad:
+            r.violation(H, H.loc(n.ast), shrink_msg(n, "`%s`" % src(H, n.ast)) + " (path: %s)" % bad[0][1].brief(), bad[0][1])
+    if not n_defs and not from_param:
+        raise AnalysisError("%s(): the merged end `%s` is never bound" % (H.name, EH))
+
+    # a record is popped as merged only when it starts at/before the merged end
+    pops = [n for n in hg.nodes if n.kind not in ("entry", "exit", "raise") and _heap_pops(n)]
+    top_starts = [norm_src("%s[0][0]" % HEAP)] + [s for (_n, s, _e) in _heap_top_unpack(H, hg) if s]
+
+    def adjoining(t, lab):
+        f = hn.edge_fact(t, lab)
+        return any(_le_fact(f, s0, EH) is not None for s0 in top_starts)
+
+    def stale(x):
+        return _mutates_heap(x) or bool(set(top_starts[1:]) & node_stores(x))
+    for p_ in pops:
+        r.site(H, p_.ast, "record popped")
+        # the first pop on a path removes the record the caller examined - unless the caller has removed that one itself
+        starts = [q for q in pops] + ([None] if caller_popped else [])
+        for q in starts:
+            if q is None:
+                bad = find_path_avoiding(hg, lambda x, _p=p_: x is _p, gate_edge=adjoining, kill=stale, skip_exc_edges=True)
+            else:
+                bad = []
+                for (d, lab) in hg.successors(q):
+                    if lab == "exc":
+                        continue
+                    bad = find_path_avoiding(hg, lambda x, _p=p_: x is _p, gate_edge=adjoining, kill=stale, start=d, skip_exc_edges=True)
+                    if bad:
+                        break
+            r.count(len(hg.nodes))
+            if bad:
+                r.violation(H, H.loc(p_.ast), "%s() pops a further record of %s as merged without having established that it starts "
+                            "at/before the merged end `%s`: the download data between two separate overwrites is skipped (path: %s)"
+                            % (H.name, HEAP, EH, bad[0][1].brief()), bad[0][1])
+                break
+    return analysed
+
+
 def run(ctx: Context):
     idx = ctx.idx
     W = idx.func(CLS + ".write")
@@ -304,21 +561,34 @@ def run(ctx: Context):
 
     def is_nd(s):
         return s in (ND, want_nd)
+    OC = idx.cls(CLS)
     tops = _heap_top_unpack(W, cfg)
-    if len(tops) < 2:
-        raise AnchorVanished("write(): expected the outer and the merging unpack of self.overwrites[0]")
+    if not tops:
+        raise AnchorVanished("write(): the unpack of self.overwrites[0] (the region the downloaded chunk is compared with) was not found")
     # outer unpack = the one whose names are re-used by the merge loop; merge unpack binds other names
     outer = tops[0]
     start_v, end_v = outer[1], outer[2]
     merges = [t for t in tops[1:] if t[2] != end_v]
-    if not merges:
-        raise AnchorVanished("write(): merge loop unpack of self.overwrites[0] not found")
+    # the merge of consecutive records may be done by a helper method whose result becomes the region's end
+    delegated = {}
+    for n in cfg.stmt_nodes():
+        if n is not outer[0] and end_v in node_stores(n):
+            dm = _delegated_merge(fnorm, n, end_v, OC)
+            if dm is not None:
+                delegated[n.id] = (n,) + dm
+    if not merges and not delegated:
+        raise AnchorVanished("write(): the merge of consecutive overwrite records (neither a merging unpack of self.overwrites[0] "
+                             "nor a helper method whose result becomes the region's end) was not found")
+    merge_helpers = []
 
     # -- (a) monotone merge -------------------------------------------------
     with ctx.rule("C39.1", "R1", "write(): every re-assignment of the merged region's end is max(end, x) or guarded by x > end",
                   expected=1) as r:
         for n in cfg.stmt_nodes():
             if n is outer[0] or end_v not in node_stores(n):
+                continue
+            if n.id in delegated:
+                r.site(W, n.ast, "end := result of %s() (decided by C39.10)" % delegated[n.id][2].name)
                 continue
             v = assign_value(n, end_v)
             r.site(W, n.ast, "end := %s" % (src(W, v) if v is not None else "?"))
@@ -358,6 +628,20 @@ def run(ctx: Context):
                         and any(after_end(t, lab) for t in cfg.nodes for (_d, lab) in cfg.successors(t)):
                     okb = True
             r.require(okb, W, W.loc(mn.ast), "merge loop does not stop exactly when the next region starts after the merged end")
+
+    # -- (a') the same merge, done by a helper method -----------------------------
+    with ctx.rule("C39.10", "R1", "write(): wherever the merge of consecutive overwrite records is done (in write() itself or in a helper "
+                  "method self.<m>() whose result becomes the region's end), the merged end starts as the end of the first record, "
+                  "never shrinks, and a record is merged only when it starts at/before the merged end", expected=1) as r:
+        for n in cfg.stmt_nodes():
+            if n is outer[0] or end_v not in node_stores(n):
+                continue
+            if n.id not in delegated:
+                r.site(W, n.ast, "merged in write() (decided by C39.1)")
+                continue
+            (_n, call, H, comp) = delegated[n.id]
+            r.site(W, n.ast, "merged by %s()" % H.name)
+            merge_helpers += [h for h in _check_merge_helper(r, W, n, call, H, comp, end_v, outer[0], OC) if h not in merge_helpers]
 
     # -- (b) downloaded data placement --------------------------------------
     with ctx.rule("C39.2", "R1", "write(): downloaded bytes go to offset self.downloaded, after consulting the overwrite "
@@ -500,6 +784,7 @@ def run(ctx: Context):
                     r.violation(W, W.loc(wn.ast), "downloaded data can be written without clipping the chunk to download_size", w)
         # the heap entry is popped before the merge loop (no region is consulted twice)
         pops = [n for n in cfg.stmt_nodes() if calls_at(n, "heappop")]
+        pops += [n for h in merge_helpers for n in h.cfg().stmt_nodes() if calls_at(n, "heappop")]
         r.require(len(pops) >= 2, W, W.loc(), "heap entries are no longer popped when consumed")
 
     # -- (c) overwrite() ------------------------------------------------------
@@ -820,7 +1105,7 @@ def run(ctx: Context):
     # -- (f) heap discipline -------------------------------------------------------
     with ctx.rule("C39.7", "R1", "write()/_update_downloaded(): the first entry of the overwrite / milestone heap is read only when "
                   "that heap is known to be non-empty; every turn of the milestone loop pops the entry it released", expected=5) as r:
-        for fn in (W, idx.func(CLS + "._update_downloaded")):
+        for fn in [W, idx.func(CLS + "._update_downloaded")] + merge_helpers:
             g = fn.cfg()
             hn = FlowNorm(fn)
             for heap in ("self.overwrites", "self.milestones"):
